@@ -348,6 +348,61 @@ func runC15(seed int64, tier string, sc *Script) map[string]any {
 			reg.Close()
 		}
 	}
+	// metadata limit on the referrers listings: through the Referrers API (one JSON page) and
+	// through the tag schema (the index manifest fetched by tag, with and without a digest
+	// header).  The body size is measured with a generous limit first.
+	sc.Case("metadata-limit-referrers")
+	sc.NonTrivial()
+	for _, prof := range []regProfile{{ReferrersAPI: true, DigestHeaders: true}, {ReferrersAPI: false, DigestHeaders: true}, {ReferrersAPI: false, DigestHeaders: false}} {
+		for _, nref := range []int{1, 6} {
+			reg := newFakeRegistry(prof)
+			repo, _ := remote.NewRepository(reg.Host() + "/a/b")
+			repo.PlainHTTP = true
+			var read int64
+			repo.Client = &http.Client{Transport: countingRT{http.DefaultTransport, &read}}
+			sb := []byte(`{"schemaVersion":2,"mediaType":"application/vnd.oci.image.manifest.v1+json","config":{"mediaType":"application/vnd.oci.empty.v1+json","digest":"sha256:44136fa355b3678a1146ad16f7e8649e94fb4fc21fe77e8310c060f61caaff8a","size":2},"layers":[]}`)
+			sd := content.NewDescriptorFromBytes(ocispec.MediaTypeImageManifest, sb)
+			if err := repo.Push(ctx, sd, bytes.NewReader(sb)); err != nil {
+				panic(err)
+			}
+			for k := 0; k < nref; k++ {
+				rb := []byte(fmt.Sprintf(`{"schemaVersion":2,"mediaType":"application/vnd.oci.image.manifest.v1+json","artifactType":"application/vnd.verif.ref","config":{"mediaType":"application/vnd.oci.empty.v1+json","digest":"sha256:44136fa355b3678a1146ad16f7e8649e94fb4fc21fe77e8310c060f61caaff8a","size":2},"layers":[],"subject":{"mediaType":%q,"digest":%q,"size":%d},"annotations":{"k":"%d"}}`,
+					sd.MediaType, sd.Digest, sd.Size, k))
+				rd := content.NewDescriptorFromBytes(ocispec.MediaTypeImageManifest, rb)
+				if err := repo.Push(ctx, rd, bytes.NewReader(rb)); err != nil {
+					panic(err)
+				}
+			}
+			list := func(limit int64) (int, error, int64) {
+				repo.MaxMetadataBytes = limit
+				atomic.StoreInt64(&read, 0)
+				n := 0
+				err := repo.Referrers(ctx, sd, "", func(rs []ocispec.Descriptor) error { n += len(rs); return nil })
+				return n, err, atomic.LoadInt64(&read)
+			}
+			n0, err0, body := list(1 << 20)
+			if err0 != nil || n0 != nref {
+				panic(fmt.Sprintf("referrers baseline: n=%d err=%v", n0, err0))
+			}
+			for _, delta := range []int64{-1, 0, 1, -40} {
+				limit := body + delta
+				n, err, rd := list(limit)
+				res := "ok"
+				if err != nil {
+					res = "err"
+				} else if n != nref {
+					res = "truncated-result"
+				}
+				within := "within"
+				if rd > limit {
+					within = "OVERREAD"
+				}
+				sc.Op(res+" "+within, "pg limit limit=%d body=%d res=%s read=%d kind=referrers api=%v digesthdr=%v", limit, body, res, rd, prof.ReferrersAPI, prof.DigestHeaders)
+				evals++
+			}
+			reg.Close()
+		}
+	}
 	// OCI layout Tags
 	sc.Case("oci-tags")
 	sc.NonTrivial()
